@@ -357,6 +357,29 @@ CHECKS["C19"] = {
     "assumptions": ["ecrecover/keccak model (DESIGN 4.1)", "dedup cache = harness map behind the gocache interface", "ethclient.Dial fails (no network)",
                     "fmt %d exact rendering for the message id (one-digit operands)"],
 }
+_ALPH_OPTS = {"z3": "z3-new", "clockfiles": "pkg/alephium/watcher.go,pkg/alephium/reobserve.go", "hookfiles": "pkg/alephium/client.go:Client"}
+CHECKS["C08"] = {
+    "runs": [
+        {"pkg": "./pkg/alephium", "entry": "VerifC08_Confirmed", "reach": ["confirmed", "unconfirmed"], "opts": _ALPH_OPTS},
+        {"pkg": "./pkg/alephium", "entry": "VerifC08_Polling", "reach": ["forwarded", "end", "watcher-error"], "opts": _ALPH_OPTS,
+         "shards": {"quick": ["mainnet=%d;ticks=%s;events=%s" % (m, t, e) for m in (0, 1) for (t, e) in (("1", "1,2"), ("2", "1"))] +
+                             ["mainnet=0;ticks=2;events=2;bridge#0=%d;bridge#1=%d;apiError#0=%d" % (b0, b1, a) for b0 in (0, 1) for b1 in (0, 1) for a in (0, 1)],
+                    "thorough": ["mainnet=%d;ticks=%s;events=%s" % (m, t, e) for m in (0, 1) for (t, e) in (("1", "1,2,3"), ("2", "1"), ("3", "1"))] +
+                                ["mainnet=%d;ticks=2;events=2;bridge#0=%d;bridge#1=%d;apiError#0=%d;kind=1,2" % (m, b0, b1, a) for m in (0, 1) for b0 in (0, 1) for b1 in (0, 1) for a in (0, 1)]},
+         "timeout": {"quick": 2400, "thorough": 30000}},
+        {"pkg": "./pkg/alephium", "entry": "VerifC08_Reobserve", "reach": ["forwarded", "nothing-forwarded"], "opts": _ALPH_OPTS,
+         "shards": {"quick": ["mainnet=0;txevents=0,1", "mainnet=1;txevents=0,1", "mainnet=0;txevents=2;failAt=0", "mainnet=1;txevents=2;failAt=0", "mainnet=1;txevents=2;failAt=1,2,3,4,5;cl=1"],
+                    "thorough": ["mainnet=%d;txevents=%s" % (m, t) for m in (0, 1) for t in ("0,1", "2")]},
+         "timeout": {"quick": 2400, "thorough": 30000}},
+    ],
+    "bounds": {"quick": {"predicate": "isEventConfirmed for every height/timestamp/clock/consistency level/network/payload kind (heights < 2^30, times < 2^52 ms)",
+                         "polling": "one batch of 1..2 events in two blocks (consistency level, payload kind symbolic; bridge or foreign caller) and 1..2 height ticks (mainnet: two events with one tick, one event with two ticks); per tick: arbitrary chain height, arbitrary canonicity of each block (reorg out and back in), arbitrary non-decreasing clock, optional node API failure",
+                         "re-observation": "one request; node answers: tx confirmed or pending, 0..2 events each {governance contract | other contract, event index 0|1, bridge | foreign caller, transfer | other payload, consistency level 0|1|10}, symbolic block height/timestamp/current height, canonical or orphaned, failure of any one of the five node calls"},
+               "thorough": {"polling": "up to 3 events and 3 ticks"}},
+    "outside": "the HTTP client and the SDK's JSON decoding (every Client method is replaced, in both builds, by a scenario function through a mechanically inserted hook prologue); real tickers; attestation metadata comparison on these paths (C09/C11 cover GetTokenInfo and parseAttestToken); more than one re-observation request; int32 wrap of heights above 2^30",
+    "assumptions": ["cooperative goroutines; channels as FIFO queues", "clock: time.Now() in watcher.go/reobserve.go redirected to the harness clock; UnixMilli of a clock reading is its own non-decreasing variable",
+                    "encoding/json.Marshal (log fields) opaque; zap/prometheus no-ops; pkg/alephium loaded through the stripped-p2p.Run overlay"],
+}
 
 # generated harness parts per (module, package): regenerated from /repo on every run for every check that loads the package
 GENERATORS = {("node", "./pkg/vaa"): [_gen_c04], ("node", "./pkg/processor"): [_gen_c07], ("node", "./pkg/alephium"): [_gen_c11], ("node", "./cmd/guardiand"): [_gen_c15]}
